@@ -195,6 +195,13 @@ class Pkt(object):
             if self.nest[1] == "with":
                 with tgt.randomize_with() as it:
                     it.kind < %(lim)d
+            elif self.nest[1] == "fail":
+                # a nested call that fails; the callback handles the failure itself
+                try:
+                    with tgt.randomize_with() as it:
+                        it.kind != it.kind
+                except vsc.SolveFailure:
+                    pass
             else:
                 tgt.randomize()
     def post_randomize(self):
@@ -207,10 +214,14 @@ class Pkt(object):
 
 
 @hyp.composite
-def nested_cases(d):
+def nested_cases(d, fail_only=False):
     lo = d.randint(2, 5)
+    if fail_only:
+        return {"nested_call": True, "k0": d.randint(0, 7), "lo": lo, "lim": d.randint(1, lo),
+                "calls": [{"nest": d.choice([["hdr", "fail"], ["hdr", "fail"], ["other", "fail"], None]),
+                           "kind": d.choice(["randomize", "randomize_with"]), "seed": d.seed()} for _ in range(d.randint(2, 4))]}
     return {"nested_call": True, "k0": d.randint(0, 7), "lo": lo, "lim": d.randint(1, lo),
-            "calls": [{"nest": d.choice([None, ["hdr", "with"], ["hdr", "plain"], ["other", "with"], ["hdr", "with"]]),
+            "calls": [{"nest": d.choice([None, ["hdr", "with"], ["hdr", "plain"], ["other", "with"], ["hdr", "with"], ["hdr", "fail"], ["other", "fail"]]),
                        "kind": d.choice(["randomize", "randomize_with"]), "seed": d.seed()} for _ in range(d.randint(2, 4))]}
 
 
@@ -248,7 +259,8 @@ def run_nested(case):
         st, exc = flat.do_call(ns, pkt, call["kind"], [] if call["kind"] == "randomize_with" else None, call["seed"])
         where = "call %d %s(seed=%d) with pre_randomize making %s" % (
             ci, call["kind"], call["seed"], "no nested call" if nest is None else "a nested %s on %s" % (
-                "randomize_with(kind < %d)" % case["lim"] if nest[1] == "with" else "randomize()", nest[0]))
+                "randomize_with(kind < %d)" % case["lim"] if nest[1] == "with" else
+                "failing randomize_with (SolveFailure caught in the callback)" if nest[1] == "fail" else "randomize()", nest[0]))
         if st == "exc":
             reset_library()
             return [Vn("library_exception", "nested call: " + exc.sig, where + " raised %r" % (exc,))], info
@@ -271,7 +283,8 @@ def run_nested(case):
         exp = {("pre", "pkt"): 1, ("post", "pkt"): 1, ("pre", "hdr"): 1, ("post", "hdr"): 1}
         if nest is not None:
             exp[("pre", nest[0])] = exp.get(("pre", nest[0]), 0) + 1
-            exp[("post", nest[0])] = exp.get(("post", nest[0]), 0) + 1
+            if nest[1] != "fail":           # (a failing call runs pre_randomize only)
+                exp[("post", nest[0])] = exp.get(("post", nest[0]), 0) + 1
         if cnt != exp:
             return [Vn("pre_randomize_set" if any(cnt.get(k_, 0) != v for k_, v in exp.items() if k_[0] == "pre") else "post_randomize_set",
                        "callbacks of the outer and the nested call did not each run once", where + ": ran %s, expected %s" % (sorted(cnt.items()), sorted(exp.items())))], info
